@@ -335,6 +335,18 @@ pub fn run_main(args: &[String]) -> i32 {
             found.push((r.profile.clone(), f.clone()));
         }
         harness_errors.extend(r.harness_errors.iter().cloned());
+        if let Some(dir) = std::env::var_os("DVCHECK_SAVE_KNOWN") {
+            let dir = PathBuf::from(dir);
+            let _ = std::fs::create_dir_all(&dir);
+            for (k, v) in &r.known_samples {
+                let name = format!("known-{:016x}.json", super::ctx::str_seed(k));
+                let path = dir.join(name);
+                if !path.exists() {
+                    let doc = json!({"property": prop, "label": "known_sample", "profile": r.profile, "case": v["case"], "key": k, "violation": v["violation"], "expect": "violation"});
+                    let _ = std::fs::write(&path, serde_json::to_vec_pretty(&doc).unwrap());
+                }
+            }
+        }
     }
     // distinct root signatures
     let mut seen_sig: BTreeSet<String> = BTreeSet::new();
